@@ -664,9 +664,9 @@ impl Mass for Locomotive {
         };
         #[cfg(feature = "logging")]
         log::info!("Updating `force_max` to correspond to new mass.");
+        // `self.mu()` would check the old `force_max` against the new mass and always fail here
         self.force_max = self
-            .mu()
-            .with_context(|| format_dbg!())?
+            .mu
             .with_context(|| format!("{}\nExpected `mu` to be set", format_dbg!()))?
             * self
                 .mass()?
@@ -711,8 +711,9 @@ impl Locomotive {
             ForceMaxSideEffect::Mass => self
                 .set_mass(
                     Some(
+                        // `self.mu()` would check the new `force_max` against the old mass and always fail here
                         force_max
-                            / (self.mu().with_context(|| format_dbg!())?.with_context(|| {
+                            / (self.mu.with_context(|| {
                                 format_dbg!("Expected traction coefficient to be set.")
                             })? * uc::ACC_GRAV),
                     ),
